@@ -158,6 +158,20 @@ HOSTILE_INLINE = {
             "{{ ().__class__.__base__.__subclasses__() | length }}", "{{ queries|join(',') }}{{ pipeline._clear_pipeline() }}",
             "{{ lipsum.__globals__.os.system('echo C16PWN') }}"],
 }
+# templates that try to grant themselves a capability by calling the loaders of the pipeline object in their context with the
+# opt-in arguments (defect D36, repaired: on the original code the first one executed the variables file, the second one ran the
+# command of the placeholder source when the inner pipeline was applied)
+_INNER_VARS = "postprocessing:\n  - type: template\n    template: x\n    vars: " + R + "/outside/v_out.py\n"
+_INNER_DICT = "{'postprocessing': [{'type': 'template', 'template': 'x', 'vars': '" + R + "/allowed/v_in.py'}]}"
+SELF_GRANT = [
+    "{{ pipeline.from_yaml(%r, True) }}" % _INNER_VARS,
+    "{{ pipeline.from_dict(" + _INNER_DICT + ", True) }}",
+    "{{ pipeline.from_yaml(allow_template_vars=True, processing_pipeline=%r) }}" % _INNER_VARS,
+    "{{ pipeline.postprocessing_items[0].from_dict({'type': 'template', 'template': 'x', 'vars': '" + R + "/outside/v_out.py'}, True) }}",
+    "{{ pipeline.finalizers[0].from_dict({'type': 'template', 'template': 'x', 'vars': '" + R + "/outside/v_out.py'}, True) }}",
+]
+HOSTILE_INLINE["post"] += [t + "{{ query }}" for t in SELF_GRANT[:4]]
+HOSTILE_INLINE["fin"] += [t + "{{ queries|join(',') }}" for t in SELF_GRANT[:3] + SELF_GRANT[4:]]
 TPL_DIR = R + "/tpl"
 PATH_TPLS = {"post": ["q.j2", "hostile_q.j2", "hostile_f.j2", "missing.j2"], "fin": ["f.j2", "hostile_f.j2", "missing.j2"]}
 
